@@ -879,3 +879,148 @@ Proof.
     + simpl. repeat split; auto.
     + simpl. reflexivity.
 Qed.
+
+(* ------------------------------------------------------------------ evaluate *)
+Definition eval_spec (eval1 : path -> Z -> node -> nres) (c : node) : Prop :=
+  forall gp i t A c' ev f,
+    SimN A (gp ++ [i]) c -> node_started c = true ->
+    eval1 (gp ++ [i]) t c = (c', ev, f) ->
+    nloc gp i HE ev /\ SimN (after A ev) (gp ++ [i]) c' /\ node_started c' = true.
+
+Lemma eval_loop_spec eval1 due1 root gp t m : forall l i A pos l' ev f,
+  Forall (eval_spec eval1) l ->
+  SimL A gp i l -> forallb node_started l = true ->
+  A gp = ACycle m pos -> pos <= i -> i + length l <= m ->
+  eval_loop eval1 due1 root gp t i l = (l', ev, f) ->
+  gloc gp i (i + length l) ev /\ length l' = length l /\ SimL (after A ev) gp i l' /\
+  forallb node_started l' = true /\ exists pos', after A ev gp = ACycle m pos' /\ pos' <= i + length l.
+Proof.
+  induction l as [|c r IH]; intros i A pos l' ev f Hspec Hsim Hst HA Hpos Hm Hrun;
+    unfold SimL in *; cbn [eval_loop length forallb ForallI] in *.
+  - inversion Hrun; subst. rewrite after_nil. repeat split; auto; try apply gloc_nil.
+    exists pos. split; auto. lia.
+  - inversion Hspec as [|? ? Hc Hr]; subst. destruct Hsim as [Hsc Hsr].
+    apply andb_prop in Hst as [Hstc Hstr].
+    set (p := gp ++ [i]) in *.
+    destruct (due1 t c).
+    + destruct (eval1 p t c) as [[c1 ev1] f1] eqn:E1.
+      set (A0 := after A [Ev BEN t p 0]).
+      assert (HA0 : A0 gp = AInEval m i false).
+      { unfold A0. rewrite after_one. unfold p. rewrite gw_node_self by auto. rewrite HA. simpl.
+        replace (pos <=? i) with true by (symmetry; apply Nat.leb_le; auto).
+        replace (i <? m) with true by (symmetry; apply Nat.ltb_lt; lia). reflexivity. }
+      assert (S0 : SimN A0 p c).
+      { apply SimN_region_after; auto. intro s. apply gw_node_ev_region; auto. }
+      destruct (Hc gp i t A0 c1 ev1 f1 S0 Hstc E1) as (N1 & S1 & St1).
+      set (A1 := after A0 ev1) in *.
+      assert (HA1 : exists h, A1 gp = AInEval m i h).
+      { unfold A1, after. rewrite HA0. destruct N1 as (_ & _ & [-> | ->]); simpl; rewrite ?Nat.eqb_refl; eauto. }
+      destruct HA1 as [h HA1].
+      set (A2 := after A1 [Ev AEN t p 0]).
+      assert (HA2 : A2 gp = ACycle m (S i)).
+      { unfold A2. rewrite after_one. unfold p. rewrite gw_node_self by auto. rewrite HA1. destruct h; aut. }
+      assert (S2 : SimN A2 p c1).
+      { apply SimN_region_after; auto. intro s. apply gw_node_ev_region; auto. }
+      assert (Sr2 : SimL A2 gp (S i) r).
+      { apply SimL_after_same; [intros j s Hj; apply gw_node_ev_region; auto|].
+        apply SimL_after_same; [intros j s Hj; eapply nloc_region; eauto; lia|].
+        apply SimL_after_same; [intros j s Hj; apply gw_node_ev_region; auto|]. exact Hsr. }
+      assert (G2 : gloc gp i (i + S (length r)) ([Ev BEN t p 0] ++ ev1 ++ [Ev AEN t p 0])).
+      { apply gloc_app; [apply gloc_node_ev; auto|]. apply gloc_app; [|apply gloc_node_ev; auto].
+        eapply nloc_gloc; [|exact N1]. lia. }
+      assert (Heq2 : forall q, after A ([Ev BEN t p 0] ++ ev1 ++ [Ev AEN t p 0]) q = A2 q).
+      { intro q. rewrite !after_app. reflexivity. }
+      destruct f1 as [f1|].
+      * inversion Hrun; subst; clear Hrun.
+        split; [exact G2|]. split; [reflexivity|]. split; [|split].
+        -- eapply SimL_ext; [intros j s _; symmetry; apply Heq2|]. split; auto.
+        -- cbn [forallb]. rewrite St1, Hstr. reflexivity.
+        -- exists (S i). split; [|lia]. rewrite <- HA2. apply Heq2.
+      * destruct (eval_loop eval1 due1 root gp t (S i) r) as [[r' ev2] f2] eqn:E2.
+        inversion Hrun; subst; clear Hrun.
+        assert (Hm2 : S i + length r <= m) by lia.
+        destruct (IH (S i) A2 (S i) r' ev2 f Hr Sr2 Hstr HA2 (le_n _) Hm2 E2) as (G3 & L3 & S3 & St3 & pos' & HA3 & Hp3).
+        assert (Heq3 : forall q, after A ([Ev BEN t p 0] ++ ev1 ++ [Ev AEN t p 0] ++ ev2) q = after A2 ev2 q).
+        { intro q. rewrite !after_app. reflexivity. }
+        split; [|split; [|split; [|split]]].
+        -- change (gloc gp i (i + S (length r)) ([Ev BEN t p 0] ++ ev1 ++ [Ev AEN t p 0] ++ ev2)).
+           apply gloc_app; [apply gloc_node_ev; auto|].
+           apply gloc_app; [eapply nloc_gloc; [|exact N1]; lia|].
+           apply gloc_app; [apply gloc_node_ev; auto|]. eapply gloc_widen; [| |exact G3]; lia.
+        -- simpl; lia.
+        -- eapply SimL_ext; [intros j s _; symmetry; apply Heq3|]. split; auto.
+           apply SimN_region_after; auto. intro s. eapply gloc_region; eauto; lia.
+        -- cbn [forallb]. rewrite St1, St3. reflexivity.
+        -- exists pos'. split; [|lia]. rewrite <- HA3. apply Heq3.
+    + destruct (eval_loop eval1 due1 root gp t (S i) r) as [[r' ev2] f2] eqn:E2.
+      inversion Hrun; subst; clear Hrun.
+      assert (Hm2 : S i + length r <= m) by lia.
+      assert (Hp2 : pos <= S i) by lia.
+      destruct (IH (S i) A pos r' ev f Hr Hsr Hstr HA Hp2 Hm2 E2) as (G3 & L3 & S3 & St3 & pos' & HA3 & Hp3).
+      split; [|split; [|split; [|split]]].
+      * eapply gloc_widen; [| |exact G3]; lia.
+      * simpl; lia.
+      * split; auto. apply SimN_region_after; auto. intro s. eapply gloc_region; eauto; lia.
+      * cbn [forallb]. rewrite Hstc, St3. reflexivity.
+      * exists pos'. split; auto. lia.
+Qed.
+
+Lemma eval_graph_spec eval1 due1 root gp gt ch t A gs' gt' ch' ev f :
+  Forall (eval_spec eval1) ch ->
+  SimL A gp 0 ch -> (forall i, length ch <= i -> quiet A (gp ++ [i])) -> gstate_ok A gp true ch ->
+  eval_graph_with eval1 due1 root gp true gt ch t = (gs', gt', ch', ev, f) ->
+  gloc gp 0 (length ch) ev /\ length ch' = length ch /\ gs' = true /\
+  SimL (after A ev) gp 0 ch' /\ (forall i, length ch' <= i -> quiet (after A ev) (gp ++ [i])) /\
+  gstate_ok (after A ev) gp true ch'.
+Proof.
+  intros Hspec Hsim Hq [HA Hst] Hrun. unfold eval_graph_with in Hrun.
+  destruct (eval_loop eval1 due1 root gp t 0 ch) as [[l' ev1] f1] eqn:E1.
+  inversion Hrun; subst; clear Hrun.
+  set (A0 := after A [Ev BGE gt' gp 0]).
+  assert (HA0 : A0 gp = ACycle (length ch) 0).
+  { unfold A0. rewrite after_one, gw_graph_self by auto. rewrite HA. reflexivity. }
+  assert (S0 : SimL A0 gp 0 ch) by (apply SimL_after_graph_ev; auto).
+  destruct (eval_loop_spec eval1 due1 root gp gt' (length ch) ch 0 A0 0 ch' ev1 f Hspec S0 Hst HA0 (le_n 0) (le_n _) E1)
+    as (G1 & L1 & S1 & St1 & pos' & HA1 & _).
+  simpl in G1. set (A1 := after A0 ev1) in *.
+  set (e := Ev AGE gt' gp 0).
+  assert (Heq : forall q, after A (Ev BGE gt' gp 0 :: ev1 ++ [e]) q = after A1 [e] q).
+  { intro q. rewrite after_cons, after_app. reflexivity. }
+  split; [|split; [|split; [|split; [|split]]]]; auto.
+  - change (gloc gp 0 (length ch) ([Ev BGE gt' gp 0] ++ ev1 ++ [e])).
+    apply gloc_app; [apply gloc_graph_ev; auto|]. apply gloc_app; [exact G1|apply gloc_graph_ev; auto].
+  - eapply SimL_ext; [intros j s _; symmetry; apply Heq|].
+    apply SimL_after_same; auto. intros j s _. apply gw_graph_ev_region; auto.
+  - intros i Hi. eapply quiet_ext; [intro s; symmetry; apply Heq|].
+    apply quiet_region_after; [intro s; apply gw_graph_ev_region; auto|].
+    apply quiet_region_after; [intro s; eapply gloc_region; eauto; lia|].
+    apply quiet_region_after; [intro s; apply gw_graph_ev_region; auto|]. apply Hq. lia.
+  - unfold gstate_ok. rewrite Heq, after_one. unfold e. rewrite gw_graph_self by auto. rewrite HA1. simpl.
+    rewrite L1. split; auto.
+Qed.
+
+Lemma eval_node_spec pl : forall n, eval_spec (eval_node pl) n.
+Proof.
+  induction n as [per st nx cs ce cp|st gs gt ch IH] using node_ind';
+    intros gp i t A c' ev f Hsim Hst Hrun; simpl in Hrun, Hst; subst st.
+  - assert (Hn : nloc gp i HE [Ev HE t (gp ++ [i]) ce]).
+    { split; [|split].
+      - simpl. unfold well_addressed. simpl. rewrite snoc_not_nil. reflexivity.
+      - intros gq _ Hgq. apply gw_node_ev_other; auto.
+      - right. apply gw_node_self; auto. }
+    assert (Hqa : quiet (after A [Ev HE t (gp ++ [i]) ce]) (gp ++ [i])).
+    { apply quiet_region_after; auto. intro s. apply gw_node_ev_region; auto. }
+    destruct (pl (gp ++ [i]) PEval ce); inversion Hrun; subst; clear Hrun; simpl; repeat split; auto;
+      try apply Hn; try apply Hqa.
+  - destruct Hsim as (Hgs & Hsim & Hq & Hok). subst gs.
+    destruct (eval_graph_with (fun q u c => eval_node pl q u c) due false (gp ++ [i]) true gt ch t)
+      as [[[[gs' gt'] ch'] ev'] f'] eqn:E.
+    inversion Hrun; subst; clear Hrun.
+    assert (Hspec : Forall (eval_spec (fun q u c => eval_node pl q u c)) ch).
+    { eapply Forall_impl; [|exact IH]. intros c Hc. exact Hc. }
+    destruct (eval_graph_spec _ _ _ _ _ _ _ _ _ _ _ _ _ Hspec Hsim Hq Hok E)
+      as (G & L & -> & S1 & Q1 & Ok1).
+    split; [eapply gloc_nloc; eauto|]. split.
+    + simpl. split; [reflexivity|]. split; [exact S1|]. split; [exact Q1|exact Ok1].
+    + reflexivity.
+Qed.
